@@ -1,285 +1,2 @@
-(* Tie.v — the constants and tables the model and the specification side were
-   written against, compared with what /repo says *now* (BMCGen.Generated is
-   regenerated from the source by /verif/gen on every run).  Every lemma is
-   closed by computation; when a table in the code changes, the lemma about it
-   stops compiling and with it every property file that depends on it. *)
-From Coq Require Import List NArith String Bool.
-Import ListNotations.
-From BMCGen Require Generated.
-From BMC Require Import Base Prim Layers Layers2 Serialize SpecRequests Packet Conn Handshake Hmac Proc.
-Open Scope N_scope.
-
-Module G := BMCGen.Generated.
-
-Definition op_lookup (name : string) : option (N * N * N * N) :=
-  match find (fun e => String.eqb (fst e) name) G.operations with Some e => Some (snd e) | None => None end.
-Definition cmd_op (cmd : string) : option (N * N * N * N) :=
-  match find (fun e => String.eqb (fst e) cmd) G.command_operation with
-  | Some e => op_lookup (snd e) | None => None end.
-
-(* the code's command -> (NetFn, body code, enterprise, command) equals the specification's command table *)
-Definition spec_row (c : SpecParse.command) : option (N * N * N * N) :=
-  let '(fn, cmd, body) := SpecParse.command_code c in
-  Some (fn, match body with Some b => b | None => 0 end, 0, cmd).
-Definition code_name (c : SpecParse.command) : string :=
-  match c with
-  | SpecParse.CGetChassisStatus => "GetChassisStatusCmd" | SpecParse.CChassisControl => "ChassisControlCmd"
-  | SpecParse.CGetDeviceID => "GetDeviceIDCmd" | SpecParse.CGetSystemGUID => "GetSystemGUIDCmd"
-  | SpecParse.CGetChannelAuthCaps => "GetChannelAuthenticationCapabilitiesCmd"
-  | SpecParse.CSetSessionPriv => "SetSessionPrivilegeLevelCmd" | SpecParse.CCloseSession => "CloseSessionCmd"
-  | SpecParse.CGetSDRRepoInfo => "GetSDRRepositoryInfoCmd" | SpecParse.CReserveSDRRepo => "ReserveSDRRepositoryCmd"
-  | SpecParse.CGetSDR => "GetSDRCmd" | SpecParse.CGetSensorReading => "GetSensorReadingCmd"
-  | SpecParse.CGetSessionInfo => "GetSessionInfoCmd" | SpecParse.CGetChannelCipherSuites => "GetChannelCipherSuitesCmd"
-  | SpecParse.CDCMICaps => "getDCMICapabilitiesInfoCmd" | SpecParse.CDCMIPowerReading => "GetPowerReadingCmd"
-  | SpecParse.CDCMISensorInfo => "GetDCMISensorInfoCmd"
-  end.
-Definition all_commands : list SpecParse.command :=
-  [SpecParse.CGetChassisStatus; SpecParse.CChassisControl; SpecParse.CGetDeviceID; SpecParse.CGetSystemGUID;
-   SpecParse.CGetChannelAuthCaps; SpecParse.CSetSessionPriv; SpecParse.CCloseSession; SpecParse.CGetSDRRepoInfo;
-   SpecParse.CReserveSDRRepo; SpecParse.CGetSDR; SpecParse.CGetSensorReading; SpecParse.CGetSessionInfo;
-   SpecParse.CGetChannelCipherSuites; SpecParse.CDCMICaps; SpecParse.CDCMIPowerReading; SpecParse.CDCMISensorInfo].
-Definition opt_eqb (a b : option (N * N * N * N)) : bool :=
-  match a, b with
-  | Some (a1, a2, a3, a4), Some (b1, b2, b3, b4) => (a1 =? b1) && (a2 =? b2) && (a3 =? b3) && (a4 =? b4)
-  | _, _ => false
-  end.
-Lemma tie_operation_table :
-  forallb (fun c => opt_eqb (cmd_op (code_name c)) (spec_row c)) all_commands = true.
-Proof. vm_compute. reflexivity. Qed.
-Lemma all_commands_complete : forall c, In c all_commands.
-Proof. destruct c; simpl; tauto. Qed.
-
-(* every response operation is the request's with NetFn + 1 (what validateResponseOperation relies on) *)
-Lemma tie_response_operations :
-  forallb (fun e => let '(name, (fn, body, ent, cmd)) := e in
-                    if Nat.eqb (String.length name) 0 then true else
-                    match op_lookup (String.append (String.substring 0 (String.length name - 3) name) "Rsp") with
-                    | Some (fn', body', ent', cmd') =>
-                        if (fn mod 2 =? 0) then (fn' =? fn + 1) && (cmd' =? cmd) && (body' =? body) && (ent' =? ent) else true
-                    | None => true
-                    end) G.operations = true.
-Proof. vm_compute. reflexivity. Qed.
-
-Lemma tie_temporary_codes : forall c, is_temporary c = existsb (N.eqb c) G.temporary_codes.
-Proof. intros c. unfold is_temporary. cbn. rewrite orb_false_r. reflexivity. Qed.
-
-Lemma tie_k_constant : forall n, k_const n = repeat (u8 n) (N.to_nat G.kConstantLength).
-Proof. reflexivity. Qed.
-
-Lemma tie_default_suites :
-  map (fun s => (su_auth s, su_integ s, su_conf s)) default_suites = G.defaultCipherSuites.
-Proof. reflexivity. Qed.
-
-Lemma tie_console_session_id : forall o s, oq_id (open_request o s) = G.console_session_id.
-Proof. reflexivity. Qed.
-
-Lemma tie_literals :
-  G.sessionless_literals = (rm_version rmcp_out, 1) /\ G.session_literals = (rm_version rmcp_out, 1) /\
-  (forall o lun, m_sequence (request_message o lun) = 1) /\
-  (forall o lun, m_remote_addr (request_message o lun) = 2 * G.SlaveAddressBMC) /\
-  (forall o lun, m_local_addr (request_message o lun) = 2 * G.SoftwareIDRemoteConsole1 + 1).
-Proof. repeat split. Qed.
-
-(* algorithm tables (authenticator.go, hasher.go, confidentiality.go): hash and truncation per algorithm code *)
-Lemma tie_auth_table :
-  G.auth_table = [([1], "sha1.New 12 nil"); ([3], "sha256.New 16 nil"); ([2], "md5.New nil"); ([], "nil fmt.Errorf")]%string
-  /\ auth_params 1 = Some (1, 12%nat) /\ auth_params 3 = Some (3, 16%nat) /\ auth_params 2 = Some (2, 0%nat).
-Proof. repeat split. Qed.
-Lemma tie_integrity_table :
-  G.integrity_table = [([0], "nil fmt.Errorf"); ([1], "hmac.New sha1.New g.K 1 12 nil"); ([2], "hmac.New md5.New g.K 1 nil");
-                       ([4], "hmac.New sha256.New g.K 1 16 nil"); ([], "nil fmt.Errorf")]%string
-  /\ integrity_params 1 = Some (Some (1, 12%nat)) /\ integrity_params 2 = Some (Some (2, 16%nat))
-  /\ integrity_params 4 = Some (Some (3, 16%nat)).
-Proof. repeat split. Qed.
-Lemma tie_confidentiality_table :
-  G.confidentiality_table = [([0], "nil fmt.Errorf"); ([1], "16 g.K 2 ipmi.NewAES128CBC"); ([], "nil fmt.Errorf")]%string.
-Proof. reflexivity. Qed.
-
-Lemma tie_bcd_plus_runes : G.bcdPlusRunes = Impl.bcd_plus_runes.
-Proof. reflexivity. Qed.
-Lemma tie_seconds_multiplier :
-  G.seconds_multiplier_table = [([0], "1"); ([1], "60"); ([2], "60 60"); ([], "60 60 24")]%string.
-Proof. reflexivity. Qed.
-Lemma tie_analog_parsers :
-  G.analog_parsers = [(0, "AnalogDataFormatParserFunc parseAnalogDataFormatUnsigned");
-                      (1, "AnalogDataFormatParserFunc parseAnalogDataFormatOnesComplement");
-                      (2, "AnalogDataFormatParserFunc parseAnalogDataFormatTwosComplement")]%string.
-Proof. reflexivity. Qed.
-Lemma tie_string_decoders :
-  G.string_decoders = [(0, "StringDecoderFunc decode8BitAsciiLatin1"); (1, "StringDecoderFunc decodeBCDPlus");
-                       (2, "StringDecoderFunc decodePacked6BitAscii"); (3, "StringDecoderFunc decode8BitAsciiLatin1")]%string.
-Proof. reflexivity. Qed.
-(* linearisation code -> Go function; the meaning of each Go function is the 11-row table of the specification
-   (36.3): ln, log10, log2, e^x, 10^x, 2^x, 1/x, x^2, x^3, sqrt, cube root *)
-Lemma tie_linearisers :
-  G.linearisers = [(1, "LineariserFunc math Log"); (2, "LineariserFunc math Log10"); (3, "LineariserFunc math Log2");
-                   (4, "LineariserFunc math Exp"); (5, "LineariserFunc f float64 float64 math Pow 10 f");
-                   (6, "LineariserFunc math Exp2"); (7, "LineariserFunc f float64 float64 math Pow f - 1");
-                   (8, "LineariserFunc f float64 float64 math Pow f 2"); (9, "LineariserFunc f float64 float64 math Pow f 3");
-                   (10, "LineariserFunc math Sqrt"); (11, "LineariserFunc f float64 float64 math Cbrt f")]%string
-  /\ G.LinearisationLinear = 0 /\ G.LinearisationNonLinear = 12.
-Proof. repeat split. Qed.
-Lemma tie_entities : G.ipmiSensorEntityIDs = ipmi_entities /\ G.dcmiSensorEntityIDs = dcmi_entities.
-Proof. split; reflexivity. Qed.
-Lemma tie_sdr_constants : G.sdrHeaderLength = 5 /\ G.sdrMaxLength = 64 /\ G.RecordTypeFullSensor = 1 /\
-                          G.RecordIDFirst = 0 /\ G.RecordIDLast = 0xffff.
-Proof. repeat split. Qed.
-Lemma tie_payload_types :
-  (G.PayloadTypeIPMI, G.PayloadTypeOEM, G.PayloadTypeOpenSessionReq, G.PayloadTypeRAKPMessage1, G.PayloadTypeRAKPMessage3)
-  = (0, 2, 0x10, 0x12, 0x14).
-Proof. reflexivity. Qed.
-Lemma tie_misc :
-  G.NetworkFunctionGroupReq = 0x2c /\ G.NetworkFunctionGroupRsp = 0x2d /\ G.NetworkFunctionOEMReq = 0x2e /\
-  G.NetworkFunctionOEMRsp = 0x2f /\ G.BodyCodeDCMI = 0xdc /\ G.StatusCodeOK = 0 /\ G.CompletionCodeNormal = 0 /\
-  G.SessionIndexHandle = 0xfe /\ G.SessionIndexID = 0xff /\ G.ChannelPresentInterface = 0xe /\
-  G.PrivilegeLevelCallback = 1 /\ G.AuthenticationTypeRMCPPlus = 6 /\ G.SystemPowerStatisticsModeEnhanced = 2 /\
-  G.SensorTypeTemperature = 1.
-Proof. repeat split. Qed.
-
-(* ---- footprint (C19): the only writes to package-level state outside declarations are
-   (a) addresses of read-only Operation / PayloadDescriptor values handed out by accessor methods, which the
-       library only dereferences, and (b) the map store of RegisterOEMPayloadDescriptor (an init-time registration API) *)
-Definition allowed_write (w : string * string * string * string) : bool :=
-  let '(pkg, v, fn, kind) := w in
-  (String.eqb kind "addr" &&
-     (String.prefix "Operation" v || String.prefix "operation" v || String.prefix "PayloadDescriptor" v) &&
-     (String.eqb (String.substring (String.length fn - 10) 10 fn) ".Operation"
-      || String.eqb (String.substring (String.length fn - 11) 11 fn) ".Descriptor"))
-  || (String.eqb v "payloadLayerTypes" && String.eqb fn "RegisterOEMPayloadDescriptor").
-(* the package-level variables themselves: a new one (a shared buffer, a pool, a cache) is a change to be looked at *)
-Definition expected_package_vars : list string := [
-  "bmc.ErrIncorrectPassword";
-  "bmc.ErrNoSupportedCipherSuite";
-  "bmc.ErrSensorReadingUnavailable";
-  "bmc.ErrSensorScanningDisabled";
-  "bmc.commandAttempts";
-  "bmc.commandDuration";
-  "bmc.commandFailures";
-  "bmc.commandResponses";
-  "bmc.commandRetries";
-  "bmc.connectionOpenAttempts";
-  "bmc.connectionOpenFailures";
-  "bmc.connectionsOpen";
-  "bmc.defaultCipherSuites";
-  "bmc.errRetryableCode";
-  "bmc.errSDRRepositoryModified";
-  "bmc.namespace";
-  "bmc.serializeOptions";
-  "bmc.sessionOpenAttempts";
-  "bmc.sessionOpenFailures";
-  "bmc.sessionsOpen";
-  "bmc.v2ConnectionOpenAttempts";
-  "bmc.v2ConnectionOpenFailures";
-  "bmc.v2ConnectionsOpen";
-  "dcmi.dcmiSensorEntityIDs";
-  "dcmi.ipmiSensorEntityIDs";
-  "dcmi.layerTypeGetDCMICapabilitiesInfoEnhancedSystemPowerStatisticsAttrsRsp";
-  "dcmi.layerTypeGetDCMICapabilitiesInfoManageabilityAccessAttrsRsp";
-  "dcmi.layerTypeGetDCMICapabilitiesInfoMandatoryPlatformAttrsRsp";
-  "dcmi.layerTypeGetDCMICapabilitiesInfoOptionalPlatformAttrsRsp";
-  "dcmi.layerTypeGetDCMICapabilitiesInfoReq";
-  "dcmi.layerTypeGetDCMICapabilitiesInfoSupportedCapabilitiesRsp";
-  "dcmi.layerTypeGetDCMISensorInfoReq";
-  "dcmi.layerTypeGetDCMISensorInfoRsp";
-  "dcmi.layerTypeGetPowerReadingReq";
-  "dcmi.layerTypeGetPowerReadingRsp";
-  "dcmi.operationGetDCMICapabilitiesInfoReq";
-  "dcmi.operationGetDCMISensorInfoReq";
-  "dcmi.operationGetPowerReadingReq";
-  "iana.enterpriseOrganisations";
-  "ipmi.CipherSuite17";
-  "ipmi.CipherSuite3";
-  "ipmi.ErrNotLinearised";
-  "ipmi.LayerTypeChassisControlReq";
-  "ipmi.LayerTypeCloseSessionReq";
-  "ipmi.LayerTypeFullSensorRecord";
-  "ipmi.LayerTypeGetChannelAuthenticationCapabilitiesReq";
-  "ipmi.LayerTypeGetChannelAuthenticationCapabilitiesRsp";
-  "ipmi.LayerTypeGetChannelCipherSuitesReq";
-  "ipmi.LayerTypeGetChannelCipherSuitesRsp";
-  "ipmi.LayerTypeGetChassisStatusRsp";
-  "ipmi.LayerTypeGetDeviceIDRsp";
-  "ipmi.LayerTypeGetSDRRepositoryInfoRsp";
-  "ipmi.LayerTypeGetSDRReq";
-  "ipmi.LayerTypeGetSDRRsp";
-  "ipmi.LayerTypeGetSensorReadingReq";
-  "ipmi.LayerTypeGetSensorReadingRsp";
-  "ipmi.LayerTypeGetSessionInfoReq";
-  "ipmi.LayerTypeGetSessionInfoRsp";
-  "ipmi.LayerTypeGetSystemGUIDRsp";
-  "ipmi.LayerTypeMessage";
-  "ipmi.LayerTypeOpenSessionReq";
-  "ipmi.LayerTypeOpenSessionRsp";
-  "ipmi.LayerTypeRAKPMessage1";
-  "ipmi.LayerTypeRAKPMessage2";
-  "ipmi.LayerTypeRAKPMessage3";
-  "ipmi.LayerTypeRAKPMessage4";
-  "ipmi.LayerTypeReserveSDRRepositoryRsp";
-  "ipmi.LayerTypeSDR";
-  "ipmi.LayerTypeSessionSelector";
-  "ipmi.LayerTypeSetSessionPrivilegeLevelReq";
-  "ipmi.LayerTypeSetSessionPrivilegeLevelRsp";
-  "ipmi.LayerTypeV1Session";
-  "ipmi.LayerTypeV2Session";
-  "ipmi.OperationChassisControlReq";
-  "ipmi.OperationCloseSessionReq";
-  "ipmi.OperationGetChannelAuthenticationCapabilitiesReq";
-  "ipmi.OperationGetChannelAuthenticationCapabilitiesRsp";
-  "ipmi.OperationGetChannelCipherSuitesReq";
-  "ipmi.OperationGetChannelCipherSuitesRsp";
-  "ipmi.OperationGetChassisStatusReq";
-  "ipmi.OperationGetChassisStatusRsp";
-  "ipmi.OperationGetDeviceIDReq";
-  "ipmi.OperationGetDeviceIDRsp";
-  "ipmi.OperationGetSDRRepositoryInfoReq";
-  "ipmi.OperationGetSDRRepositoryInfoRsp";
-  "ipmi.OperationGetSDRReq";
-  "ipmi.OperationGetSDRRsp";
-  "ipmi.OperationGetSensorReadingReq";
-  "ipmi.OperationGetSensorReadingRsp";
-  "ipmi.OperationGetSessionInfoReq";
-  "ipmi.OperationGetSessionInfoRsp";
-  "ipmi.OperationGetSystemGUIDReq";
-  "ipmi.OperationGetSystemGUIDRsp";
-  "ipmi.OperationReserveSDRRepositoryReq";
-  "ipmi.OperationReserveSDRRepositoryRsp";
-  "ipmi.OperationSetSessionPrivilegeLevelReq";
-  "ipmi.OperationSetSessionPrivilegeLevelRsp";
-  "ipmi.PayloadDescriptorIPMI";
-  "ipmi.PayloadDescriptorOpenSessionReq";
-  "ipmi.PayloadDescriptorOpenSessionRsp";
-  "ipmi.PayloadDescriptorRAKPMessage1";
-  "ipmi.PayloadDescriptorRAKPMessage2";
-  "ipmi.PayloadDescriptorRAKPMessage3";
-  "ipmi.PayloadDescriptorRAKPMessage4";
-  "ipmi.analogDataFormatDescriptions";
-  "ipmi.analogDataFormatParsers";
-  "ipmi.bcdPlusRunes";
-  "ipmi.completionCodeDescriptions";
-  "ipmi.entityIdDescriptions";
-  "ipmi.layerTypeAES128CBC";
-  "ipmi.linearisationDescriptions";
-  "ipmi.linearisationLinearisers";
-  "ipmi.operationLayerTypes";
-  "ipmi.outputTypeDescriptions";
-  "ipmi.payloadLayerTypes";
-  "ipmi.payloadTypeDescriptions";
-  "ipmi.rateUnitDurations";
-  "ipmi.recordTypeDescriptions";
-  "ipmi.recordTypeLayerTypes";
-  "ipmi.sensorDirectionDescriptions";
-  "ipmi.sensorTypeDescriptions";
-  "ipmi.sensorUnitSymbols";
-  "ipmi.statusCodeDescriptions";
-  "ipmi.stringEncodingDecoders";
-  "ipmi.stringEncodingDescriptions";
-  "transport.namespace";
-  "transport.receiveBytes";
-  "transport.responseLatency";
-  "transport.subsystem";
-  "transport.transmitBytes"
-]%string.
-Lemma tie_package_vars : G.package_vars = expected_package_vars.
-Proof. reflexivity. Qed.
-Lemma tie_footprint : forallb allowed_write G.global_writes = true.
-Proof. vm_compute. reflexivity. Qed.
+(* Tie.v — all tie files together (for interactive use; property files import only the ones they rely on) *)
+From BMCProps Require Export TieBase TieOps TieCrypto TieConn TiePrim TieProc TieFootprint.
